@@ -431,6 +431,9 @@ def oracle(ctx, c, a):
         expect = (kh[1], kh[2]) if (kh[1], kh[2]) == (ku[1], ku[2]) else None
     elif not c["hosts"] and ku is not None:
         expect = (ku[1], ku[2]) if ku[0] == "ok" else None
+    elif len(c["hosts"]) >= 2 and len(set(c["hosts"])) >= 2 and no_uri_auth:
+        # several Host headers naming different authorities: no single authority can be determined
+        expect = None
     if expect != "skip":
         ctx.count("oracle:authority-known")
         if expect != auth:
